@@ -169,6 +169,12 @@ func (n *countNode) Next() (bool, error) {
 					case []immutable.Option[float64]:
 						arrayCount, err = countItems(array, source.Filter, source.Limit)
 
+					case []float32:
+						arrayCount, err = countItems(array, source.Filter, source.Limit)
+
+					case []immutable.Option[float32]:
+						arrayCount, err = countItems(array, source.Filter, source.Limit)
+
 					case []string:
 						arrayCount, err = countItems(array, source.Filter, source.Limit)
 
